@@ -38,7 +38,7 @@ CHECKS = {
              "and channel schedules."),
     "design_ref": "DESIGN.md section 3 (C08)",
     "note": ("Trusted: sim/ref/screen608.py as a model of CEA-608 for the generated (protocol-following) scripts; comparison only at quiescent frames "
-             "with blank runs collapsed; roll-up rows by order and count. Two open known findings (rows written over earlier content)."),
+             "with blank runs collapsed; roll-up rows by order and count. Four open known findings with one root cause (rows written over earlier content, pop-on and paint-on, characters and attributes)."),
     "technique": "deterministic simulation: simulated encoder + perturbing channel with a simulated frame clock, lock-step reference decoder, history check of display and change times",
   },
   "C18": {
